@@ -23,6 +23,8 @@ STRUCTS = [
     dict(id="frac", rows=[("alive", [1, 2, 3, 4], None, True), ("prev", [1, 2], "alive", True), ("ca", [1], None, True), ("cc", [3], None, True)]),
     # a compartment that is not in the databook but has the default value 0 and a blank setup weight: it must start empty ("zero defaults")
     dict(id="zerodef", rows=[("alive", [1, 2, 3, 4], None, True), ("ca", [1], None, True), ("cd", [4], None, True, "default0")]),
+    # a characteristic that includes a compartment twice, directly and through a nested characteristic: tot = ca + ab = 2 ca + cb
+    dict(id="twice", rows=[("ab", [1, 2], None, False), ("tot", [1, 1, 2], None, True, "components=ca, ab"), ("ca", [1], None, True), ("cc", [3], None, True), ("cd", [4], None, True)]),
     dict(id="fracunused", rows=[("everybody", [1, 2, 3, 4], None, False), ("share", [1], "everybody", True), ("cb", [2], None, True), ("cc", [3], None, True), ("cd", [4], None, True)]),
 ]
 
@@ -36,9 +38,9 @@ def worlds_module(thorough):
     out = []
     for s in STRUCTS:
         names = [r[0] for r in s["rows"]]
-        dom = ["{%s}" % ",".join(rat(v) for v in ([0] if len(r) > 4 else FRAC if r[2] else (NUMT if thorough and len(s["rows"]) <= 4 else NUM))) for r in s["rows"]]
+        dom = ["{%s}" % ",".join(rat(v) for v in ([0] if len(r) > 4 and r[4] == "default0" else FRAC if r[2] else (NUMT if thorough and len(s["rows"]) <= 4 else NUM))) for r in s["rows"]]
         out.append('[ id |-> "%s", ncomp |-> 4, members |-> <<%s>>, denom |-> <<%s>>, used |-> <<%s>>, dom |-> <<%s>> ]' % (
-            s["id"], ",".join("{%s}" % ",".join(map(str, r[1])) for r in s["rows"]), ",".join(str(names.index(r[2]) + 1 if r[2] else 0) for r in s["rows"]),
+            s["id"], ",".join("<<%s>>" % ",".join(map(str, r[1])) for r in s["rows"]), ",".join(str(names.index(r[2]) + 1 if r[2] else 0) for r in s["rows"]),
             ",".join("TRUE" if r[3] else "FALSE" for r in s["rows"]), ",".join(dom)))
     return "---- MODULE InitWorlds ----\nEXTENDS Rat\nStructures == <<\n" + ",\n".join(out) + "\n>>\n====\n"
 
@@ -66,7 +68,8 @@ def framework(at, s):
     used = {r[0]: r[3] for r in s["rows"]}
     sheet("Databook Pages", [["Datasheet Code Name", "Datasheet Title"], ["sv", "State"], ["pa", "Pars"]])
     rows = [["Code Name", "Display Name", "Is Source", "Is Sink", "Is Junction", "Setup Weight", "Default Value", "Databook Page"]]
-    default0 = {r[0] for r in s["rows"] if len(r) > 4}
+    default0 = {r[0] for r in s["rows"] if len(r) > 4 and r[4] == "default0"}
+    explicit = {r[0]: r[4].split("=", 1)[1] for r in s["rows"] if len(r) > 4 and r[4].startswith("components=")}
     for n in COMPS:
         inbook = n in used
         if n in default0:
@@ -86,7 +89,7 @@ def framework(at, s):
     crow = [["Code Name", "Display Name", "Components", "Denominator", "Default Value", "Setup Weight", "Databook Page"]]
     for (n, members, den, u) in [r[:4] for r in s["rows"]]:
         if n not in COMPS:
-            crow.append([n, "Ch " + n, ", ".join(COMPS[k - 1] for k in members), den, 0, 1 if u else 0, "sv"])
+            crow.append([n, "Ch " + n, explicit.get(n, ", ".join(COMPS[k - 1] for k in members)), den, 0, 1 if u else 0, "sv"])
     # a characteristic of characteristics and a ratio of characteristics, reported only (consistency over time)
     crow.append(["everyone", "Ch everyone", "ca, cb, cc, cd", None, 0, 0, None])
     crow.append(["firsttwo", "Ch firsttwo", "ca, cb", None, 0, 0, None])
@@ -118,7 +121,7 @@ def observe(at, s, c):
     pop = ps.pop_names[0]
     for k, r_ in enumerate(s["rows"]):
         n = r_[0]
-        if len(r_) > 4:  # not a databook quantity: the framework's default value (0) is what initialises it
+        if len(r_) > 4 and r_[4] == "default0":  # not a databook quantity: the framework's default value (0) is what initialises it
             continue
         par = ps.pars[n]
         ts = par.ts[pop]
@@ -146,6 +149,66 @@ def observe(at, s, c):
             else:
                 characs.append((ch.name, ti, float(ch.vals[ti]), num, 1.0, False))
     return "accepted", x, characs, ""
+
+
+def structured_states(at, V, records, index, rid, cov):
+    """Initial sizes entered in the databook for models with timed compartments and junctions (engine worlds, no injected state): the
+    sizes at the first time point - summed over the elapsed-time bins, and after the junctions have been emptied into their
+    destinations - reproduce the databook totals; people entered into a junction that has nowhere to go are refused."""
+    from . import worlds as WD
+    from atomica.model import BadInitialization
+
+    cat = {w["id"]: w for w in WD.catalogue("quick")}
+    cases = []
+    for wid, vals in (("tfrac", {"a": 100, "v": 60, "d": 0}), ("tlong", {"a": 10, "v": 50, "d": 0}), ("tgroup", {"a": 20, "v": 30, "w": 7, "d": 0})):
+        cases.append((wid, vals, None))
+    for props_ in ((Fr(1, 2), Fr(1)), (Fr(0), Fr(1)), (Fr(0), Fr(0))):
+        cases.append(("jzero", {"a": 64, "j": 16, "b": 8, "c": 0}, props_))
+    n = 0
+    for wid, vals, props_ in cases:
+        w = cat[wid]
+        dt = float(w["dt"])
+        S = at.ProjectSettings(2000, 2000 + 2 * dt, dt)
+        pv = [[(Fr(0) if p["units"] != "duration" and not p["timed"] else p["dom"][0]) for p in w["pars"]] for _ in range(2)]
+        if props_ is not None:
+            names = [p["name"] for p in w["pars"]]
+            for row in pv:
+                row[names.index("p0/p1")], row[names.index("p0/p2")] = props_
+        Fw, ps = WD.build_parset(w, pv, S.tvec)
+        for c in w["comps"]:
+            if c["kind"] in ("source", "sink"):
+                continue
+            ts = ps.pars[c["base"]].ts[c["pop"]]
+            ts.t, ts.vals, ts.assumption = [], [], float(vals[c["base"]])
+        label = dict(structure="world %s" % wid, databook=vals, proportions=None if props_ is None else [str(x) for x in props_])
+        ill = props_ is not None and sum(props_) == 0 and vals.get("j", 0) > 0
+        try:
+            r = at.run_model(S, Fw, ps)
+            outcome = "accepted"
+        except BadInitialization:
+            outcome, r = "refused", None
+        except Exception as ex:
+            outcome, r = "error", None
+            label["error"] = "%s: %s" % (type(ex).__name__, str(ex)[:200])
+        comps = [c for c in w["comps"] if c["kind"] not in ("source", "sink")]
+        x = [0.0] * len(comps)
+        if r is not None:
+            x = [float(r.model.get_pop(c["pop"]).get_comp(c["base"]).vals[0]) for c in comps]
+            if not all(np.isfinite(v) for v in x):
+                V.violation("C07 non-finite initial sizes%s" % (" (people entered into a junction whose proportions are all zero)" if ill else ""), dict(**label, x=[str(v) for v in x]))
+                continue
+        if ill and outcome == "accepted":
+            V.violation("C07 an initial state that cannot be redistributed was not refused", dict(**label, x=x))
+            continue
+        total = sum(vals[c["base"]] for c in comps)
+        members = [list(range(1, len(comps) + 1))] + [[k + 1] for k, c in enumerate(comps) if c["kind"] in ("normal", "timed") and not any(l["dst"] == c["name"] and cat[wid]["comps"][[cc["name"] for cc in cat[wid]["comps"]].index(l["src"])]["kind"] in ("junction", "resjunction") for l in w["links"])]
+        b = [[int(total), 1]] + [[int(vals[comps[m[0] - 1]["base"]]), 1] for m in members[1:]]
+        records.append(dict(id=rid, kind="init", outcome=outcome, members=members, used=[True] * len(members), b=b, x=FX.fixseq(x)))
+        index[rid] = dict(structure=label["structure"], case=label, b=b, outcome=outcome, x=x, error=label.get("error", ""))
+        rid += 1
+        n += 1
+    cov["structured_initial_states"] = n
+    return rid
 
 
 def run(prop, tier, only=None, V=None):
@@ -186,6 +249,8 @@ def run(prop, tier, only=None, V=None):
                 index[rid] = dict(structure=s["id"], case=c0["case"], charac=name, ti=ti, val=val, num=num, den=den)
                 rid += 1
                 nchar += 1
+    if not only:
+        rid = structured_states(at, V, records, index, rid, cov)
     bad, states = C.validate_batch(["Rat", "Big", "InitSolveTrace"], "InitSolveTrace", records, timeout=3000)
     cov["states"] += states
     cov["transitions"] += states
